@@ -161,8 +161,16 @@ def run_schedule(cfg, choices):
             S.wait_registered("producer")
 
         def join(self, timeout=None):
-            S.switch("join", lambda: S.is_done("producer"))
-            super().join(timeout=30)
+            r = S.switch("join", lambda: S.is_done("producer"), timed=timeout is not None)
+            if r != "timeout":
+                super().join(timeout=30)
+
+        def is_alive(self):
+            # a liveness query is a yield point; the answer is the LOGICAL state (the OS thread may linger)
+            if threading.get_ident() in S.by_ident and not S.deadlock:
+                S.switch("is_alive?")
+                return "producer" in S.threads and not S.is_done("producer")
+            return super().is_alive()
 
     if cfg["reader"] == "video":
         reader = Reader(vid, q, cfg["start"], cfg["end"])
@@ -207,7 +215,7 @@ def run_schedule(cfg, choices):
     finally:
         # make sure no thread outlives the case
         with S.cv:
-            if reader.is_alive() and not S.is_done("producer"):
+            if threading.Thread.is_alive(reader) and not S.is_done("producer"):
                 S.deadlock = True
                 S.cv.notify_all()
         if reader.ident is not None:
@@ -253,10 +261,10 @@ def run_schedule(cfg, choices):
             src_v = 0 if cfg["reader"] == "video" else exp_src[k]
             if abs(pix - (40 * src_v + b + 1)) > 0.51 or osz != list(SIZES[src_v]):
                 fails.append(("consumer:record-mismatch", f"record {k}: pixel {pix}, orig_size {osz} for video {src_v} frame {b}"))
-    if reader.is_alive():
+    if threading.Thread.is_alive(reader):
         fails.append(("reader-alive", "reader thread still alive after the generator finished"))
-    if not q.empty():
-        fails.append(("queue-not-empty", f"{q.qsize()} items left in the buffer"))
+    if not q._empty():
+        fails.append(("queue-not-empty", f"{len(q.queue)} items left in the buffer"))
     return fails, facts, S.taken
 
 
